@@ -121,7 +121,8 @@ impl Monitor for C03 {
             match ix.tag {
                 "withdraw" => {
                     let paid_out = qu(v0.saturating_sub(v1));
-                    let removed = (&sa0 - &sa1) * &asv;
+                    // a withdrawal may overshoot the deposit by < 0.0001 units, booked as debt
+                    let removed = (&sa0 - &sa1) * &asv + (&sl1 - &sl0) * &lsv;
                     self.cov.eval(format!("withdraw|all{}|m{}|sv{}", flag as u8, modclass(&removed), (asv != qi(1)) as u8));
                     if (tok1.saturating_sub(tok0)) < v0.saturating_sub(v1) {
                         self.cov.probe("t22_fee_transfer");
@@ -140,35 +141,35 @@ impl Monitor for C03 {
                             out.push(viol("C03", "withdraw_all_not_exact_floor", ix.tag,
                                 format!("bank {bk}: paid {} value {}", q_str(&paid_out), q_str(&value)), idx));
                         }
-                    } else if paid_out > &removed + &asv * &u * qi(2) + &u * qi(2) {
+                    } else if paid_out > &removed + (&asv + &lsv + qi(2)) * &u * qi(2) {
                         out.push(viol("C03", "withdraw_paid_more_than_debited", ix.tag,
-                            format!("bank {bk}: paid {} position value removed {}", q_str(&paid_out), q_str(&removed)), idx));
+                            format!("bank {bk}: paid {} position value removed {} (excess {} asv {} shares {} -> {}; raw paid {} sa0*2^48 {} sa1*2^48 {} asv*2^48 {} asv_pre*2^48 {})", q_str(&paid_out), q_str(&removed), q_str(&(&paid_out - &removed)), q_str(&asv), q_str(&sa0), q_str(&sa1), paid_out, &sa0 / &u, &sa1 / &u, &asv / &u, q_w(bank0.asset_share_value) / &u), idx));
                     }
                 }
                 "borrow" => {
                     let paid_out = qu(v0.saturating_sub(v1));
                     let added = (&sl1 - &sl0) * &lsv + (&sa0 - &sa1) * &asv;
                     self.cov.eval(format!("borrow|m{}|sv{}", modclass(&added), (lsv != qi(1)) as u8));
-                    if paid_out > &added + &lsv * &u * qi(2) + &u * qi(2) {
+                    if paid_out > &added + (&asv + &lsv + qi(2)) * &u * qi(2) {
                         out.push(viol("C03", "borrow_paid_more_than_debited", ix.tag,
                             format!("bank {bk}: paid {} liability value added {}", q_str(&paid_out), q_str(&added)), idx));
                     }
                 }
                 "deposit" => {
                     let received = qu(v1.saturating_sub(v0));
-                    let credited = (&sa1 - &sa0) * &asv;
+                    let credited = (&sa1 - &sa0) * &asv + (&sl0 - &sl1) * &lsv;
                     self.cov.eval(format!("deposit|m{}|sv{}", modclass(&credited), (asv != qi(1)) as u8));
                     if (tok0.saturating_sub(tok1)) > v1.saturating_sub(v0) {
                         self.cov.probe("t22_fee_transfer");
                     }
-                    if credited > &received + &u * qi(2) {
+                    if credited > &received + (&asv + &lsv + qi(2)) * &u * qi(2) {
                         out.push(viol("C03", "deposit_credited_more_than_paid", ix.tag,
                             format!("bank {bk}: vault received {} credited {}", q_str(&received), q_str(&credited)), idx));
                     }
                 }
                 "repay" => {
                     let received = qu(v1.saturating_sub(v0));
-                    let relieved = (&sl0 - &sl1) * &lsv;
+                    let relieved = (&sl0 - &sl1) * &lsv + (&sa1 - &sa0) * &asv;
                     self.cov.eval(format!("repay|all{}|m{}|sv{}", flag as u8, modclass(&relieved), (lsv != qi(1)) as u8));
                     let tokenless = bank0.flags & TOKENLESS_REPAYMENTS_ALLOWED != 0;
                     if tokenless && v0 == v1 {
@@ -186,7 +187,7 @@ impl Monitor for C03 {
                             out.push(viol("C03", "repay_all_rounded_down", ix.tag,
                                 format!("bank {bk}: charged {} liability value {}", q_str(&received), q_str(&value)), idx));
                         }
-                    } else if relieved > &received + &u * qi(2) {
+                    } else if relieved > &received + (&asv + &lsv + qi(2)) * &u * qi(2) {
                         out.push(viol("C03", "repay_relieved_more_than_paid", ix.tag,
                             format!("bank {bk}: vault received {} liability relieved {}", q_str(&received), q_str(&relieved)), idx));
                     }
